@@ -65,16 +65,20 @@ def repo_src_hash():
 
 def build_lean():
     """regenerate the constants from /repo, then `lake build` (library + driver).
-    Returns (ok, log, failed_modules)."""
-    import gen_constants
+    Returns (ok, log, failed_modules, errors); guards of the C text that could not be translated
+    (tools/gen_guards.py) are appended to the errors as `gen_guards: ...` lines."""
+    import gen_constants, gen_guards
     with Lock("lake"):
         gen_constants.write(REPO, LEAN / "CollectionsC" / "Generated" / "Constants.lean")
+        guard_problems = gen_guards.write(REPO, LEAN / "CollectionsC" / "Generated" / "Guards.lean")
         sh([sys.executable, str(ROOT / "tools" / "regen.py")])
         r = sh(["lake", "build"], cwd=LEAN)
     out = r.stdout + r.stderr
     failed = re.findall(r"^- (CollectionsC\.[\w.]+|Mains\.\w+|driver_\w+)", out, re.M)
     errs = re.findall(r"^error: (.*)$", out, re.M)
-    return r.returncode == 0, out, failed, errs
+    for p in guard_problems:
+        log(p)
+    return r.returncode == 0, out, failed, errs + guard_problems
 
 
 def lean_theorems(module_path):
